@@ -1,6 +1,8 @@
 #!/bin/sh
-# usage: tools/take_seed.sh <out dir of the agent> <seed name, e.g. C06-c> : confirm, store under seeded/, evaluate
+# usage: tools/take_seed.sh <out dir of the agent> <seed name, e.g. C06-c> : confirm, store under seeded/, evaluate (scratch worktree)
 O="$1"; N="$2"
 if tools/confirm_seed.sh "$O" > /tmp/take.$N.log 2>&1; then
-  mkdir -p seeded/$N && cp "$O"/patch.diff "$O"/demo.* "$O"/build_demo.sh "$O"/meta.json seeded/$N/ && SE_LINES=${SE_LINES:-2} SE_WIDTH=${SE_WIDTH:-300} tools/seed_eval.sh seeded/$N
+  mkdir -p seeded/$N && cp "$O"/patch.diff "$O"/demo.* "$O"/build_demo.sh "$O"/meta.json seeded/$N/
+  P=$(python3 -c "import json;print(json.load(open('seeded/$N/meta.json'))['property'])")
+  echo "$N CONFIRMED"; EL=${SE_LINES:-2} EW=${SE_WIDTH:-300} tools/eval_scratch.sh seeded/$N/patch.diff $P
 else echo "$N NOT CONFIRMED"; tail -6 /tmp/take.$N.log; fi
